@@ -67,7 +67,7 @@ where
         let mut remaining_to_read = self.size;
 
         while remaining_to_read > 0 {
-            let mut buf = vec![0; remaining_to_read];
+            let mut buf = vec![0; remaining_to_read.min(8192)];
 
             match self.reader.read(&mut buf) {
                 Err(e) => {
